@@ -232,12 +232,12 @@ def _feed(h, obj):
         _feed(h, np.asarray(obj.as_quat()))
     elif isinstance(obj, (set, frozenset)):
         _feed(h, sorted(obj, key=repr))
-    elif type(obj).__name__ == 'Integrator' and hasattr(obj, 'mat_nb'):
-        # observable state only: the buffers beyond the rows held are uninitialised memory
-        n = len(obj.trajectory)
+    elif type(obj).__name__ == 'Integrator' and hasattr(obj, 'trajectory'):
+        # observable state only: the buffers beyond the rows held are uninitialised memory.
+        # The private buffers are included when they exist under today's names (a digest
+        # that sees more); the check never depends on them being there.
         h.update(b"INTEGRATOR")
-        _feed(h, [obj.trajectory, obj.lla[:n], obj.velocity_n[:n], obj.mat_nb[:n],
-                  bool(obj.with_altitude), obj.initial_pva])
+        _feed(h, integrator_state(obj))
     elif hasattr(obj, '__dict__') and not isinstance(obj, type) and not callable(obj):
         h.update(b"O" + type(obj).__name__.encode())
         if _depth[0] > 6:
@@ -257,6 +257,28 @@ def _feed(h, obj):
 
 _depth = [0]
 _SKIP_ATTRS = {'spy_log', 'spy_delivery'}
+
+
+def integrator_state(obj):
+    """Observable state of a strapdown.Integrator: the public trajectory, plus the rows
+    held in the private state buffers when they exist under their current names."""
+    tr = obj.trajectory
+    n = len(tr)
+    out = [tr]
+    for name in ('lla', 'velocity_n', 'mat_nb'):
+        buf = getattr(obj, name, None)
+        if isinstance(buf, np.ndarray) and buf.ndim >= 2 and len(buf) >= n:
+            out.append(np.array(buf[:n]))
+    for name in ('with_altitude',):
+        if hasattr(obj, name):
+            out.append(bool(getattr(obj, name)))
+    return out
+
+
+def integrator_capacity(obj):
+    """Rows the private buffers can hold, or -1 when not observable (informational)."""
+    buf = getattr(obj, 'lla', None)
+    return len(buf) if isinstance(buf, np.ndarray) else -1
 
 
 def digest(*objs):
